@@ -81,7 +81,8 @@ def evaluate(x, M, shift=None, volume=True, deep=True):
     M = np.asarray(M)
     T, N = x.shape[:2]
     species = ['Li'] * N
-    traj = concretise.make_trajectory(x.copy(), species, M, time_step=1e-15)
+    x_in = x.copy()
+    traj = concretise.make_trajectory(x_in, species, M, time_step=1e-15)
     try:
         p1 = np.array(traj.positions)
         p2 = np.array(traj.positions)
@@ -91,6 +92,8 @@ def evaluate(x, M, shift=None, volume=True, deep=True):
         p3 = np.array(traj.positions)
     except Exception as e:  # noqa: BLE001
         return [(f'raise-{type(e).__name__}', str(e))], ('raise',)
+    if not np.array_equal(x_in, x, equal_nan=True):
+        viols.append(('input-coordinates-modified', f'{x.reshape(-1, 3).tolist()} -> {x_in.reshape(-1, 3).tolist()}'))
     for name, p in (('first-read', p1), ('second-read', p2), ('after-mode-switch', p3)):
         if not (np.all(p >= 0) and np.all(p < 1)):
             bad = p[(p < 0) | (p >= 1)]
